@@ -43,6 +43,13 @@ def gen(rng, tier):
             m = rng.choice([1, 1, 2, 2, 3, 4])
             members = rng.sample(range(1, n + 1), min(m, n))
             words.append([f, members])
+        if rng.random() < 0.4:
+            # two words that differ only in case (May / may): a corpus token must be credited to its own word, which the
+            # exact lookup finds before any normalisation
+            f0 = words[0][0]
+            if f0.lower() == f0 and f0.capitalize() != f0 and f0.capitalize() not in [w_[0] for w_ in words]:
+                others = [i_ for i_ in range(1, n + 1) if i_ not in words[0][1]] or list(range(1, n + 1))
+                words.append([f0.capitalize(), rng.sample(others, 1)])
         g['words'] = words
         jobs = []
         for _ in range(2 if tier == 'quick' else 3):
@@ -82,7 +89,24 @@ def oracle(rep, g, rec, stats, pairs):
     adj = G.adj_of(n, g['plain_edges'])
     reach = {i: G.reach_set(adj, i) for i in range(1, n + 1)}
     cls = {i: CLS.get(g['pos'][i - 1], -1) for i in range(1, n + 1)}
-    members = {f: sorted(set(m)) for f, m in g['words']}
+    words_ = [(f, sorted(set(m))) for f, m in g['words']]
+
+    def lookup(tok):
+        """wordnet.synsets(token) per the documented search: forms equal to the token, or whose (different) normalised form
+        equals it; only if nothing is found, the same with the normalised token"""
+        def one(q):
+            out = []
+            for f, m in words_:
+                if f == q or (f.lower() != f and f.lower() == q):
+                    out += [x for x in m if x not in out]
+            return sorted(out)
+        r = one(tok)
+        return r if r else one(tok.lower())
+
+    class _Members(dict):
+        def get(self, k, default=None):
+            return lookup(k)
+    members = _Members()
     mixed = any(cls[t] != cls[s] for s in range(1, n + 1) for t in reach[s])
     nontrivial = False
     for job, res in zip(g['ic_jobs'], rec['ic']):
@@ -95,26 +119,26 @@ def oracle(rep, g, rec, stats, pairs):
             # KeyError is what the code does when a hypernym edge leaves the part-of-speech class
             # (outside the property's quantifier); anything else is a failure
             touched = any(cls[s] >= 0 and any(cls[t] != cls[s] for t in reach[s])
-                          for tok in counts for s in members.get(tok.lower(), []))
+                          for tok in counts for s in members.get(tok, []))
             if not (res[1] == 'KeyError' and touched):
                 rep.fail('ic.compute raised', case, {'got': res})
             else:
                 stats['keyerror_cases'] = stats.get('keyerror_cases', 0) + 1
-                pairs.append((model_input(g, rec, job, {t: members.get(t.lower(), []) for t in counts}, counts), -3))
+                pairs.append((model_input(g, rec, job, {t: members.get(t, []) for t in counts}, counts), -3))
             continue
         _, conv, synres, keyorder, icv = res
         sm = Fraction(job['smoothing'])
         # wordnet.synsets(word): declared members (case-insensitively through the normalizer)
         for tok in counts:
-            if sorted(synres[tok]) != members.get(tok.lower(), []):
+            if sorted(synres[tok]) != members.get(tok, []):
                 rep.fail('wordnet.synsets(word) is not the declared synsets of the word', case,
-                         {'token': tok, 'got': synres[tok], 'expected': members.get(tok.lower(), [])})
+                         {'token': tok, 'got': synres[tok], 'expected': members.get(tok, [])})
         # expected weights from the property text
         expF = {i: sm for i in range(1, n + 1) if cls[i] >= 0}
         expT = {c: sm for c in range(4)}
         exact = True
         for tok, c in counts.items():
-            ss = members.get(tok.lower(), [])
+            ss = members.get(tok, [])
             if not ss:
                 continue
             wt = Fraction(c, len(ss)) if job['distribute'] else Fraction(c)
@@ -185,7 +209,7 @@ def oracle(rep, g, rec, stats, pairs):
                             if ru[0] == 'ok' and float.fromhex(ru[1]) > v:
                                 rep.fail('information content is larger for a hypernym than for its hyponym', case,
                                          {'hyponym': t, 'hypernym': u})
-        if any(len(reach[s]) > 2 for tok in counts for s in members.get(tok.lower(), [])):
+        if any(len(reach[s]) > 2 for tok in counts for s in members.get(tok, [])):
             nontrivial = True
         if exact and not (bad or badT):
             impl = [[[i, got[i][1].numerator, got[i][1].denominator] for i in sorted(expF)],
